@@ -20,8 +20,12 @@ import (
 )
 
 type c38In struct {
-	Ops   []string `json:"ops"`
-	Probe int      `json:"probe"` // index of the probe this case is about: 0 = after set-up, k = after Ops[k-1]
+	Ops   []string `json:"ops,omitempty"`
+	Probe int      `json:"probe,omitempty"` // index of the probe this case is about: 0 = after set-up, k = after Ops[k-1]
+	// race family: a linearizable read started concurrently with the last write, then silence
+	Race   string `json:"race,omitempty"`   // read-first | offset | committed-not-applied | just-applied | stretched
+	Offset int    `json:"offset_us,omitempty"`
+	Iter   int    `json:"iter,omitempty"`
 }
 
 const c38LinTimeout = 2 * time.Second // LinearizableTimeout given to the read (correct code answers in a few ms)
@@ -129,6 +133,44 @@ func (h *c38Hist) apply(ld *vcNode, op string) error {
 	return errors.New("skip: unknown op")
 }
 
+// c38TargetCmp: fsmTarget's recorded value against fsmIdx (system quiet), observed through
+// Subscribe: a subscription at or below the recorded value comes back closed.
+func c38TargetCmp(s *Store) string {
+	idx := s.fsmIdx.Load()
+	closed := func(i uint64) bool {
+		ch := s.fsmTarget.Subscribe(i)
+		select {
+		case <-ch:
+			return true
+		default:
+			s.fsmTarget.Unsubscribe(ch)
+			return false
+		}
+	}
+	switch {
+	case closed(idx + 1):
+		return "Gt"
+	case closed(idx):
+		return "Eq"
+	}
+	return "Lt"
+}
+
+// c38SlowLog stands between Store.lastCommandIndex and the log store (raft keeps its own reference):
+// it can hold a GetLog until the FSM has got past the entry asked for, which stretches the window
+// between the read's look at fsmIdx and its subscription.
+type c38SlowLog struct {
+	raft.LogStore
+	before func(i uint64)
+}
+
+func (l *c38SlowLog) GetLog(i uint64, out *raft.Log) error {
+	if l.before != nil {
+		l.before(i)
+	}
+	return l.LogStore.GetLog(i, out)
+}
+
 func c38Kinds(s *Store, from, to uint64) []string {
 	var out []string
 	for i := from; i <= to; i++ {
@@ -165,6 +207,7 @@ func (h *c38Hist) probe(w *vWriter, in c38In, note string) {
 	for time.Now().Before(dl) && !(s.raft.CommitIndex() == s.raft.LastIndex() && s.raft.AppliedIndex() == s.raft.LastIndex()) {
 		time.Sleep(2 * time.Millisecond)
 	}
+	target := c38TargetCmp(s)
 	pre := vcLinBefore(s)
 	last := s.raft.LastIndex()
 	done := c38Kinds(s, 1, pre.FsmIdx)
@@ -215,8 +258,10 @@ func (h *c38Hist) probe(w *vWriter, in c38In, note string) {
 	nontrivial := lastKind != "" && lastKind != "(Some KCommand)"
 	tags = append(tags, "last-committed="+lastKind, "seen="+seen)
 	c := VCase{Input: in, Key: key, Tags: tags, Nontrivial: nontrivial,
-		Coq: fmt.Sprintf("{| c_node := {| n_done := %s; n_todo := %s; n_rest := %s |}; c_term := %s; c_srt := %s; c_leader := %s; c_ready := %s; c_seen := %s |}",
-			coqList(done), coqList(pre.Kinds), coqList(rest), coqN(pre.Term), coqN(pre.Srt), coqBool(pre.Leader), coqBool(pre.Ready), seen)}
+		Coq: fmt.Sprintf("{| c_node := {| n_done := %s; n_todo := %s; n_rest := %s |}; c_term := %s; c_srt := %s; c_leader := %s; c_ready := %s; c_seen := %s; c_target := %s |}",
+			coqList(done), coqList(pre.Kinds), coqList(rest), coqN(pre.Term), coqN(pre.Srt), coqBool(pre.Leader), coqBool(pre.Ready), seen, target)}
+	tags = append(tags, "target="+target)
+	c.Tags = tags
 	// the property: a healthy leader serves the read (possibly as the term's first, strong, read) within its timeout
 	if err != nil {
 		c.Sig = "C38:linearizable-read-refused:" + vcErrClass(err)
@@ -270,6 +315,200 @@ func c38RunHistory(t *testing.T, w *vWriter, ops []string, upto int) {
 	}
 }
 
+// ---------------------------------------------------------------- race family
+
+const c38RaceTimeout = 3 * time.Second // LinearizableTimeout of a racing read; correct code: well under 50 ms even under load
+
+type c38Racer struct {
+	t    *testing.T
+	c    *vCluster
+	s    *Store
+	seq  int
+	fail int
+}
+
+func c38NewRacer(t *testing.T) *c38Racer {
+	for attempt := 0; attempt < 3; attempt++ {
+		c, err := vcNew(t, 1, 0)
+		if err != nil {
+			continue
+		}
+		s := c.nodes[0].s
+		if vcExec(s, "CREATE TABLE c38 (id INTEGER PRIMARY KEY, v INTEGER)", "CREATE TABLE big (x INTEGER)") != nil {
+			c.close()
+			continue
+		}
+		// this term's strong read, so that the reads below get to the wait
+		qr := queryRequestFromString("SELECT COUNT(*) FROM c38", false, false, false)
+		qr.Level = proto.ConsistencyLevel_STRONG
+		if _, _, _, err := s.Query(context.Background(), qr); err != nil {
+			c.close()
+			continue
+		}
+		return &c38Racer{t: t, c: c, s: s}
+	}
+	return nil
+}
+
+func (r *c38Racer) quiet() {
+	s := r.s
+	for i := 0; i < 5000 && !(s.raft.CommitIndex() == s.raft.LastIndex() && s.raft.AppliedIndex() == s.raft.LastIndex() && s.fsmIdx.Load() >= s.dbAppliedIdx.Load()); i++ {
+		time.Sleep(200 * time.Microsecond)
+	}
+	time.Sleep(200 * time.Microsecond)
+}
+
+// one iteration: the last write and a linearizable read racing it, then nothing.
+func (r *c38Racer) run(w *vWriter, in c38In) {
+	s := r.s
+	key := fmt.Sprintf("race:%s:%d:%d", in.Race, in.Offset, in.Iter)
+	tags := []string{"race", "race=" + in.Race}
+	r.quiet()
+	if s.strongReadTerm.Load() != s.raft.CurrentTerm() || !s.IsLeader() {
+		w.Emit(VCase{Input: in, Key: key, Inconcl: "not a leader with this term's strong read done", Tags: tags})
+		return
+	}
+	r.seq++
+	idxW := s.raft.LastIndex() + 1
+	sql := fmt.Sprintf("INSERT INTO c38(v) VALUES(%d)", r.seq)
+	if in.Race == "stretched" {
+		sql = "INSERT INTO big(x) WITH RECURSIVE c(i) AS (SELECT 1 UNION ALL SELECT i+1 FROM c WHERE i < 150000) SELECT i FROM c"
+	}
+	wdone := make(chan error, 1)
+	write := func() { go func() { wdone <- vcExec(s, sql) }() }
+	spin := func(cond func() bool) {
+		for i := 0; i < 2000000 && !cond(); i++ {
+			select {
+			case err := <-wdone:
+				wdone <- err
+				return
+			default:
+			}
+		}
+	}
+	switch in.Race {
+	case "read-first":
+		// the read is launched below, the write right after it
+	case "offset":
+		write()
+		st := time.Now()
+		for time.Since(st) < time.Duration(in.Offset)*time.Microsecond {
+		}
+	case "committed-not-applied", "stretched":
+		write()
+		spin(func() bool { return s.raft.CommitIndex() >= idxW })
+	case "just-applied":
+		write()
+		spin(func() bool { return s.fsmIdx.Load() >= idxW })
+	}
+	pre := vcLinBefore(s)
+	lo := uint64(1)
+	if pre.FsmIdx > 8 {
+		lo = pre.FsmIdx - 7
+	}
+	done := c38Kinds(s, lo, pre.FsmIdx) // a window of the log is enough: the model does not depend on absolute indexes
+	orig := s.raftLog
+	if in.Race == "stretched" {
+		s.raftLog = &c38SlowLog{LogStore: orig, before: func(i uint64) {
+			for k := 0; k < 100000 && s.fsmIdx.Load() < i; k++ {
+				time.Sleep(100 * time.Microsecond)
+			}
+			time.Sleep(2 * time.Millisecond) // the FSM has finished the entry and nobody was subscribed
+		}}
+	}
+	rdone := make(chan error, 1)
+	var lvl proto.ConsistencyLevel
+	st := time.Now()
+	go func() {
+		qr := queryRequestFromString("SELECT COUNT(*) FROM c38", false, false, false)
+		qr.Level = proto.ConsistencyLevel_LINEARIZABLE
+		qr.LinearizableTimeout = int64(c38RaceTimeout)
+		var err error
+		_, lvl, _, err = s.Query(context.Background(), qr)
+		rdone <- err
+	}()
+	if in.Race == "read-first" {
+		write()
+	}
+	err := <-rdone
+	lat := time.Since(st)
+	werr := <-wdone
+	s.raftLog = orig
+	if werr != nil {
+		w.Emit(VCase{Input: in, Key: key, Inconcl: "the write failed: " + werr.Error(), Tags: tags})
+		return
+	}
+	// silence: nothing else is written; what the target has recorded once everything is applied
+	r.quiet()
+	target := c38TargetCmp(s)
+	seen := "RLocal"
+	switch cls := vcErrClass(err); {
+	case err == nil && lvl == proto.ConsistencyLevel_LINEARIZABLE:
+	case err == nil:
+		seen = "RUpgraded"
+	case cls == "EFsmTimeout":
+		seen = "(RErr LinTimeout)"
+	case cls == "ENotLeader":
+		seen = "(RErr LinNotLeader)"
+	case cls == "EStale":
+		seen = "(RErr LinTermChanged)"
+	default:
+		seen = "(RErr LinVerifyFailed)"
+	}
+	c := VCase{Input: in, Key: key, Tags: append(tags, "seen="+seen, "target="+target), Nontrivial: pre.Commit > pre.FsmIdx,
+		Coq: fmt.Sprintf("{| c_node := {| n_done := %s; n_todo := %s; n_rest := [] |}; c_term := %s; c_srt := %s; c_leader := %s; c_ready := %s; c_seen := %s; c_target := %s |}",
+			coqList(done), coqList(pre.Kinds), coqN(pre.Term), coqN(pre.Srt), coqBool(pre.Leader), coqBool(pre.Ready), seen, target)}
+	if pre.Commit > pre.FsmIdx {
+		c.Tags = append(c.Tags, "read-began-with-fsm-behind")
+	}
+	if err != nil {
+		r.fail++
+		c.Sig = "C38:linearizable-read-refused:" + vcErrClass(err)
+		if errors.Is(err, ErrWaitForFSMTimeout) {
+			c.Sig = "C38:read-racing-last-write-never-woken"
+		}
+		c.OracleFail = fmt.Sprintf("linearizable read racing the last write (%s, offset %d us) failed after %v with no further write: %v (when it began: commit index %d, fsm index %d; write was entry %d; fsm index now %d; fsmTarget vs fsmIdx: %s)",
+			in.Race, in.Offset, lat.Round(time.Millisecond), err, pre.Commit, pre.FsmIdx, idxW, s.fsmIdx.Load(), target)
+	}
+	w.Emit(c)
+}
+
+func c38RaceInputs(n, stretched int) []c38In {
+	var out []c38In
+	for i := 0; i < stretched; i++ {
+		out = append(out, c38In{Race: "stretched", Iter: i})
+	}
+	offsets := []int{0, 5, 10, 20, 40, 60, 80, 100, 130, 160, 200, 250, 300, 400, 600, 1000}
+	for i := 0; i < n; i++ {
+		switch i % 4 {
+		case 0:
+			out = append(out, c38In{Race: "offset", Offset: offsets[(i/4)%len(offsets)], Iter: i})
+		case 1:
+			out = append(out, c38In{Race: "committed-not-applied", Iter: i})
+		case 2:
+			out = append(out, c38In{Race: "just-applied", Iter: i})
+		default:
+			out = append(out, c38In{Race: "read-first", Iter: i})
+		}
+	}
+	return out
+}
+
+func c38RunRaces(t *testing.T, w *vWriter, ins []c38In) {
+	r := c38NewRacer(t)
+	if r == nil {
+		w.Emit(VCase{Input: c38In{Race: "stretched"}, Key: "race-cluster", Inconcl: "single-node cluster did not start"})
+		return
+	}
+	defer r.c.close()
+	for _, in := range ins {
+		if r.fail >= 3 {
+			break // each failing read costs its whole timeout; three concrete failures are enough
+		}
+		r.run(w, in)
+	}
+}
+
 func TestVerif_C38(t *testing.T) {
 	vcQuietLogs()
 	w := vOpen()
@@ -279,9 +518,23 @@ func TestVerif_C38(t *testing.T) {
 		if err := json.Unmarshal(raw, &in); err != nil {
 			t.Fatal(err)
 		}
+		if in.Race != "" {
+			// the window is narrow: repeat the iteration
+			var ins []c38In
+			for i := 0; i < 200; i++ {
+				ins = append(ins, in)
+			}
+			if in.Race == "stretched" {
+				ins = ins[:3]
+			}
+			c38RunRaces(t, w, ins)
+			return
+		}
 		c38RunHistory(t, w, in.Ops, in.Probe)
 		return
 	}
+	// the race family first, on its own single node, while the machine is not busy with the histories
+	c38RunRaces(t, w, c38RaceInputs(vN(320, 6000), vN(4, 40)))
 	hists := [][]string{
 		{"lin", "join-nonvoter", "lin", "barrier", "write", "barrier", "snapshot", "remove"},
 		{"lin", "join-voter", "join-voter", "stepdown", "lin", "join-nonvoter", "remove", "stepdown", "barrier"},
